@@ -123,12 +123,13 @@ async fn run_async(cfg: &ACfg, hist: &[AEv]) -> Outcome<AEv> {
     let mut out: Vec<Outstanding> = (0..2).map(|_| Outstanding { lookups: vec![], enr_reqs: vec![], pings: vec![] }).collect();
     let mut admitted: BTreeSet<usize> = BTreeSet::new(); // keys with an Established / add_enr in the history
     let mut lookups: Vec<tokio::task::JoinHandle<Result<Vec<Enr>, discv5::QueryError>>> = vec![];
+    let mut sent_to: BTreeMap<Vec<u8>, SocketAddr> = BTreeMap::new();
     let mut chain = vec![];
     let mut prev = None;
     let mut violation: Option<Violation> = None;
     let mut counters: BTreeMap<&'static str, u64> = BTreeMap::new();
     let src_of = |e: &Enr, k: usize| -> SocketAddr {
-        mode.get_contactable_addr(e).unwrap_or_else(|| util::v4(10, 0, 0, KEYS[k] as u8, 9000))
+        util::ref_contactable(&mode, e).unwrap_or_else(|| util::v4(10, 0, 0, KEYS[k] as u8, 9000))
     };
     let full: Vec<AEv> = cfg.seed.iter().cloned().chain(hist.iter().cloned()).collect();
     let hist = &full[..];
@@ -175,25 +176,29 @@ async fn run_async(cfg: &ACfg, hist: &[AEv]) -> Outcome<AEv> {
                 let (id, _d) = out[*k as usize].lookups.remove(0);
                 let rec = shape_record(KEYS[*rk as usize], *s);
                 learnt_from_nodes = true;
-                let from = NodeAddress { socket_addr: src_of(&before.get(&ids[*k as usize]).cloned().unwrap_or_else(|| shape_record(KEYS[*k as usize], 0)), *k as usize), node_id: ids[*k as usize] };
+                // a real handler only reports a response that came from the address the request went to
+                let from = NodeAddress { socket_addr: sent_to.get(&id.0).copied().unwrap_or_else(|| src_of(&before.get(&ids[*k as usize]).cloned().unwrap_or_else(|| shape_record(KEYS[*k as usize], 0)), *k as usize)), node_id: ids[*k as usize] };
                 node.inject(HandlerOut::Response(from, Box::new(v::Response { id, body: v::ResponseBody::Nodes { total: 1, nodes: vec![rec] } }))).await;
             }
             AEv::NodesLocal(k) => {
                 let (id, _d) = out[*k as usize].lookups.remove(0);
                 learnt_from_nodes = true;
-                let from = NodeAddress { socket_addr: src_of(&before.get(&ids[*k as usize]).cloned().unwrap_or_else(|| shape_record(KEYS[*k as usize], 0)), *k as usize), node_id: ids[*k as usize] };
+                // a real handler only reports a response that came from the address the request went to
+                let from = NodeAddress { socket_addr: sent_to.get(&id.0).copied().unwrap_or_else(|| src_of(&before.get(&ids[*k as usize]).cloned().unwrap_or_else(|| shape_record(KEYS[*k as usize], 0)), *k as usize)), node_id: ids[*k as usize] };
                 node.inject(HandlerOut::Response(from, Box::new(v::Response { id, body: v::ResponseBody::Nodes { total: 1, nodes: vec![node.discv5.local_enr()] } }))).await;
             }
             AEv::EnrAnswer(k, s) => {
                 let id = out[*k as usize].enr_reqs.remove(0);
                 let rec = shape_record(KEYS[*k as usize], *s);
                 learnt_from_nodes = true;
-                let from = NodeAddress { socket_addr: src_of(&before.get(&ids[*k as usize]).cloned().unwrap_or_else(|| shape_record(KEYS[*k as usize], 0)), *k as usize), node_id: ids[*k as usize] };
+                // a real handler only reports a response that came from the address the request went to
+                let from = NodeAddress { socket_addr: sent_to.get(&id.0).copied().unwrap_or_else(|| src_of(&before.get(&ids[*k as usize]).cloned().unwrap_or_else(|| shape_record(KEYS[*k as usize], 0)), *k as usize)), node_id: ids[*k as usize] };
                 node.inject(HandlerOut::Response(from, Box::new(v::Response { id, body: v::ResponseBody::Nodes { total: 1, nodes: vec![rec] } }))).await;
             }
             AEv::Pong(k, seq) => {
                 let id = out[*k as usize].pings.remove(0);
-                let from = NodeAddress { socket_addr: src_of(&before.get(&ids[*k as usize]).cloned().unwrap_or_else(|| shape_record(KEYS[*k as usize], 0)), *k as usize), node_id: ids[*k as usize] };
+                // a real handler only reports a response that came from the address the request went to
+                let from = NodeAddress { socket_addr: sent_to.get(&id.0).copied().unwrap_or_else(|| src_of(&before.get(&ids[*k as usize]).cloned().unwrap_or_else(|| shape_record(KEYS[*k as usize], 0)), *k as usize)), node_id: ids[*k as usize] };
                 node.inject(HandlerOut::Response(from, Box::new(v::Response { id, body: v::ResponseBody::Pong { enr_seq: *seq, ip: Ipv4Addr::new(10, 0, 0, LOCAL as u8).into(), port: 9000u16.try_into().unwrap() } }))).await;
             }
             AEv::Fail(k) => {
@@ -205,6 +210,7 @@ async fn run_async(cfg: &ACfg, hist: &[AEv]) -> Outcome<AEv> {
         rt::settle().await;
         for hin in node.drain_handler_in() {
             if let HandlerIn::Request(contact, req) = hin {
+                sent_to.insert(req.id.0.clone(), contact.socket_addr());
                 if let Some(k) = ids.iter().position(|i| *i == contact.node_id()) {
                     match &req.body {
                         v::RequestBody::FindNode { distances } if distances == &vec![0] => out[k].enr_reqs.push(req.id.clone()),
@@ -226,7 +232,7 @@ async fn run_async(cfg: &ACfg, hist: &[AEv]) -> Outcome<AEv> {
             if *id == node.id {
                 violation = Some(mk("an entry is never the local node", "admit:local", "local id in the table".into()));
             }
-            if mode.get_contactable_addr(e).is_none() {
+            if util::ref_contactable(&mode, e).is_none() {
                 violation = Some(mk("every entry is contactable in the node's IP mode", "admit:uncontactable", format!("{} stored with record {}", util::short(id), e)));
             }
             if !filt(e) {
@@ -324,7 +330,7 @@ async fn handshake_case(ipv6: bool, src_variant: u8, rec_variant: u8) -> Result<
     use discv5::verif::VPacket;
     use discv5::NodeContact;
     let cfg = HCfg { nodes: 1, ipv6, ..Default::default() };
-    let mut w = World::build(&cfg, Monitors { c03: false, c04: false, c13: false, c15: false, c19: false }).await;
+    let mut w = World::build(&cfg, Monitors { c03: false, c04: false, c13: false, c15: false, c19: false, c20: false }).await;
     let d = NoDriver;
     let mkey = util::key(170);
     let mid = util::node_id(&mkey);
